@@ -102,6 +102,7 @@ SHAPES = [
     "A {% capture v %} B {% endcapture %} C {{ x }} D\n",
     " A {% unless x %} B \n{% endunless %}\n C {% assign y = 1 %} D {% if x %}{% endif %} E",
     "\n{% if x %} {% if x %} \n{% assign y = 2 %} {% endif %} {% else %} {% endif %} A {% for i in a %} {% endfor %} B ",
+    "[{% if x %} {% for i in u %} {% else %}none{% endfor %} {% endif %}]{% unless u %} {% case x %}{% when 2 %} {% else %}E{% endcase %} {% endunless %}",
 ]
 TOKENS = [BASE.tokenize(s) for s in SHAPES]
 NPOS = [sum(len(getattr(t, "wc", ())) for t in toks) for toks in TOKENS]
@@ -207,7 +208,7 @@ def _shape_ok(shape: int, choice: list[int], d: int, sup: bool, x: bool, n: int)
     tiers=("quick",),
     shard={"shape": list(range(len(SHAPES))), "m0": [0, 1, 2, 3]},
     covers="for every marker assignment: each ContentNode's left/right trim equals the adjacent markup's right/left marker (carry through blocks, else/when arms, comments, raw, liquid tag), and the render modulo whitespace equals the untrimmed render",
-    bounds="8 shapes; 3 independently chosen markers assigned cyclically to all marker positions (4^3 assignments) x default_trim x suppression flag x data (x bool, list len 0 or 2)",
+    bounds="9 shapes; 3 independently chosen markers assigned cyclically to all marker positions (4^3 assignments) x default_trim x suppression flag x data (x bool, list len 0 or 2)",
     stubs=("tokens are rebuilt with symbolic `wc` tuples via dataclasses.replace (bypasses the lexer's regexes)",),
     grid=lambda: [(s, a, b, a, d, sup, True, True) for s in range(len(SHAPES)) for a in range(4) for b in (0, 1) for d in range(3) for sup in (False, True)],
 )
@@ -222,7 +223,7 @@ def t_shape3(shape: int, m0: int, m1: int, m2: int, d: int, sup: bool, x: bool, 
     tiers=("thorough",),
     shard={"shape": list(range(len(SHAPES))), "m0": [0, 1, 2, 3]},
     covers="for every marker assignment: each ContentNode's left/right trim equals the adjacent markup's right/left marker (carry through blocks, else/when arms, comments, raw, liquid tag), and the render modulo whitespace equals the untrimmed render",
-    bounds="8 shapes; 4 independently chosen markers assigned cyclically to all marker positions (4^4 assignments) x default_trim x suppression flag x data (x bool, list len 0..2)",
+    bounds="9 shapes; 4 independently chosen markers assigned cyclically to all marker positions (4^4 assignments) x default_trim x suppression flag x data (x bool, list len 0..2)",
     stubs=("tokens are rebuilt with symbolic `wc` tuples via dataclasses.replace (bypasses the lexer's regexes)",),
     grid=lambda: [(s, a, b, b, a, d, sup, True, 2) for s in range(len(SHAPES)) for a in range(4) for b in (0, 1) for d in range(3) for sup in (False, True)],
 )
@@ -237,7 +238,7 @@ def t_shape(shape: int, m0: int, m1: int, m2: int, m3: int, d: int, sup: bool, x
     tiers=("thorough",),
     shard={"shape": list(range(len(SHAPES))), "m0": [0, 1, 2, 3]},
     covers="as t_shape with 6 independently chosen markers (4^6 assignments per shape)",
-    bounds="8 shapes x 4^6 marker assignments x default_trim x suppression",
+    bounds="9 shapes x 4^6 marker assignments x default_trim x suppression",
 )
 def t_shape6(shape: int, m0: int, m1: int, m2: int, m3: int, m4: int, m5: int, d: int, sup: bool) -> bool:
     choice = [m0] + [concrete_int(m, 0, 3) for m in (m1, m2, m3, m4, m5)]
@@ -268,6 +269,9 @@ BLANKS = [
     "{% if x %} {% raw %}R{% endraw %} {% endif %}",
     "{% with p: n %} {% endwith %}",
     "{% if x %} {{ '' }} {% endif %}",
+    "{% if x %} {% for i in a %} {% else %}none{% endfor %} {% endif %}|{% unless x %} {% for i in a %}\n{% else %}E{% endfor %}{% endunless %}",
+    "{% if x %} {% case n %}{% when 1 %} {% else %}other{% endcase %} {% endif %}|{% if x %} {% if n == 1 %} {% elsif n == 2 %}two{% else %} {% endif %} {% endif %}",
+    "{% for i in a %} {% unless x %} {% else %}U{% endunless %} {% endfor %}|{% with q: n %} {% if x %}{% else %}W{% endif %} {% endwith %}|{% if x %} {% capture c %}C{% endcapture %} {{ c }}{% endif %}",
 ]
 _ENV_NS = ENVS[(0, False)]
 BLANK_T = [_ENV_NS.from_string(s) for s in BLANKS]
@@ -295,7 +299,7 @@ def _all_nodes(nodes) -> list:
     timeout=200,
     shard={"i": list(range(len(BLANKS)))},
     covers="every node whose `blank` flag is set writes nothing but whitespace for all data (so suppression can only remove whitespace)",
-    bounds="13 programs covering if/unless/for/case/with arms with assign, capture, comments, raw, cycle, increment, echo, liquid, output; x bool, n in -1..3, list len <= 2",
+    bounds="16 programs covering if/unless/for/case/with arms with assign, capture, comments, raw, cycle, increment, echo, liquid, output; x bool, n in -1..3, list len <= 2",
     grid=lambda: [(i, x, n, [1, 2]) for i in range(len(BLANKS)) for x in (False, True) for n in (0, 1, 2)],
 )
 def d_blank(i: int, x: bool, n: int, a: List[int]) -> bool:
